@@ -118,10 +118,11 @@ package jobs
 //@ spec loOf(s slice) int = offOf(s)
 //@ spec hiOf(s slice) int = offOf(s) + len(s)
 
-// the wrapped sink: all-or-nothing and deterministic (a batch is accepted iff it contains no rejected entity)
+// the wrapped sink: all-or-nothing and deterministic (a non-empty batch is accepted iff it contains no rejected entity);
+// an EMPTY batch may fail too (a sink that is down fails whatever it is given): the wrapper must still terminate
 //@ assumed (jobs.Sink).processEntities
 //@   modifies $delivered
-//@   ensures (result == nil) <==> cnt(arrOf(entities), loOf(entities), hiOf(entities)) == 0
+//@   ensures len(entities) > 0 ==> ((result == nil) <==> cnt(arrOf(entities), loOf(entities), hiOf(entities)) == 0)
 //@   ensures result == nil ==> $delivered == old($delivered) + len(entities)
 //@   ensures result != nil ==> $delivered == old($delivered)
 //@   ensures !errIs(result, MaxItemsExceededError)
